@@ -4,7 +4,8 @@ demo passes without the change and fails with it. Confirmed ones are stored unde
 import json, os, shutil, subprocess, sys, tempfile, re
 from concurrent.futures import ThreadPoolExecutor
 VERIF = os.path.dirname(os.path.dirname(os.path.abspath(__file__)))
-SRC = sys.argv[1] if len(sys.argv) > 1 else '/tmp/seed_out'
+SRC = sys.argv[1] if len(sys.argv) > 1 else "/tmp/seed_out"
+OFFSET = int(sys.argv[2]) if len(sys.argv) > 2 else 0
 EXPECT_FAIL = {'test_record_and_playback_basic_operation_data_interception_no_arguments_raise_exception',
                'test_record_and_playback_basic_operation_output_interception_no_arguments_raise_exception'}
 
@@ -14,7 +15,7 @@ def sh(cmd, cwd, timeout=600):
 
 def verify(item):
     prop, k, sd = item
-    name = '%s-%s' % (prop, k)
+    name = '%s-%d' % (prop, int(k) + OFFSET)
     tmp = tempfile.mkdtemp(prefix='seedverify-')
     out = {'name': name}
     try:
